@@ -87,3 +87,14 @@ Theorem C14_trait_copies : forall a t fl r,
     tc_attr r = tc_attr a /\ tc_impl_attr r = tc_impl_attr a /\ tc_inner_attr r = tc_inner_attr a.
 Proof. exact merge_copies_selected. Qed.
 Print Assumptions C14_trait_copies.
+
+(* ---- downstream of the threading (Lemmas/RepeatFlags.v) ---- *)
+From O2o.Model Require Import Expand.
+From O2o.Lemmas Require Import RepeatFlags.
+
+(* the markers themselves are invisible to the code generator: with repeat / skip_repeat / stop_repeat erased from every field,
+   variant and payload field - i.e. with exactly what the written-out form threads to - the generated impls are the same.
+   (Validation does read one marker: a permeating repeat on a struct field is a reported misuse.) *)
+Theorem C14_marks_invisible_to_codegen : forall d, data_type_impl (erase_data d) = data_type_impl d.
+Proof. exact marks_invisible_to_codegen. Qed.
+Print Assumptions C14_marks_invisible_to_codegen.
